@@ -2,7 +2,9 @@ package checks
 
 import (
 	"fmt"
+	"html"
 	"strings"
+	"unicode"
 
 	"verif/ref"
 	"verif/spaces"
@@ -352,4 +354,47 @@ func squeezeTitle(s string) string {
 		}
 	}
 	return strings.Join(ls, "\n")
+}
+
+// ---- every named character reference ---------------------------------------------------
+
+// c06AllEntities: each of the HTML5 named character references (the table the
+// spec points to), and the same name with one more letter appended (not a
+// reference unless the table says so), in running text, in a link title and in
+// an info string.
+func c06AllEntities(x *X, names []string) {
+	name := names[x.ChooseFree(len(names))]
+	if x.ChooseFree(2) == 1 {
+		name += "q"
+	}
+	isRef := ref.EntityNames[name]
+	ent := "&" + name + ";"
+	lit := "&amp;" + name + ";"
+	den, denAttr := ent, html.EscapeString(html.UnescapeString(ent))
+	if !isRef {
+		den, denAttr = lit, lit
+	}
+	type ctxT struct{ name, doc, want string }
+	ctxs := []ctxT{
+		{"text", "x" + ent + "y\n", "<p>x" + den + "y</p>"},
+		{"title", "[a](/u \"" + ent + "\")\n", "<p><a href=\"/u\" title=\"" + denAttr + "\">a</a></p>"},
+		{"heading", "# " + ent + "\n", "<h1>" + den + "</h1>"},
+	}
+	if v := html.UnescapeString(ent); !strings.ContainsAny(v, " \t\n\r\f\v \u0085  ") && !strings.ContainsFunc(v, unicode.IsSpace) {
+		ctxs = append(ctxs, ctxT{"info", "```" + ent + "\nc\n```\n", "<pre><code class=\"language-" + denAttr + "\">c\n</code></pre>"})
+	}
+	for _, cx := range ctxs {
+		in := []byte(cx.doc)
+		blocks, refs := cm.Parse(clone(in))
+		out := renderCfg(blocks, refs, cm.SoftBreakPreserve, false)
+		x.Validated()
+		if got, want := ref.Norm(out), ref.Norm(cx.want); got != want {
+			x.Fail("named-character-reference", cx.name, in, "%q renders (normalized) %q; with %s %s a character reference of the HTML5 table the denotation is %q", cx.doc, got, ent, map[bool]string{true: "being", false: "not being"}[isRef], want)
+		}
+	}
+	if isRef {
+		x.Nontrivial()
+	}
+	x.Outcome(tree.Hash64(name))
+	x.Sample(ent)
 }
